@@ -48,6 +48,7 @@ U0 = U1 + [x for x in U2 if x not in U1] + [
     ["Optional", ["Optional", "int"]], ["List", ["Optional", ["Optional", "str"]]], ["Optional", ["List", ["Optional", ["Optional", "int"]]]],
     ["Optional", "Null"], ["Optional", "Unknown"], ["Optional", ["Union", "int", "Null"]], ["Dict", ["Optional", ["Optional", M_A]]],
     ["Optional", ["Optional", ["Optional", ["Lit", ["a"]]]]],
+    ["Optional", ["Union", ["Optional", ["Lit", ["a"]]], "float"]], ["Optional", ["Union", ["Optional", "int"], "str"]],
     ["Tuple", "int", "str"], ["Tuple", "float", "str"], ["Tuple", ["Union", "int", "float"], "str"], ["Tuple", ["Optional", ["Optional", "int"]], "str"]]
 
 
@@ -96,6 +97,23 @@ def check_registry(r, gen_, reg, sreg_names, prefix=""):
     after = graph_description(reg)
     if canon_before != oracle.canon_graph(reg.models)[1]:
         r.fail(prefix + "repass-changes-graph", f"before:\n{before}\nafter:\n{after}")
+        return
+    # the other documented way to re-run simplification: through a pointer, optimize_type(ptr, process_model_ptr=True)
+    # (one level: the pointer's own model is processed, pointers inside it are not followed)
+    try:
+        for m in list(reg.models):
+            for ptr in list(m.pointers)[:1]:
+                gen_.optimize_type(ptr, process_model_ptr=True)
+    except RecursionError:
+        r.fail(prefix + "repass-through-pointer:RecursionError", before)
+        return
+    except Exception as e:  # noqa: BLE001
+        from ..core import exc_sig
+        t, where = exc_sig(e)
+        r.fail(prefix + f"repass-through-pointer:{t}@{where}", f"{e}\n{before}")
+        return
+    if canon_before != oracle.canon_graph(reg.models)[1]:
+        r.fail(prefix + "repass-through-pointer-changes-graph", f"before:\n{before}\nafter:\n{graph_description(reg)}")
 
 
 def check_ir(case):
